@@ -3,6 +3,7 @@ package vlab
 import (
 	"context"
 	"errors"
+	"fmt"
 	"hash/fnv"
 	"io"
 	"os"
@@ -10,6 +11,7 @@ import (
 	"runtime"
 	"strings"
 
+	"github.com/dominikbraun/graph"
 	task "github.com/go-task/task/v3"
 	terrors "github.com/go-task/task/v3/errors"
 	"github.com/go-task/task/v3/taskfile/ast"
@@ -41,6 +43,7 @@ type Options struct {
 	NotSilent    bool
 	ListJSON     bool // instead of running tasks: e.ListTasks(list-all, json)
 	SchedSetup   bool // Setup's reader/merge goroutines are scheduler threads too (not run inline)
+	DumpOnly     bool // after Setup: record a canonical dump of what was loaded instead of running tasks
 }
 
 type CallSpec struct {
@@ -178,6 +181,7 @@ func (sc *Scenario) Body(dir string, x *Exec, probe *Probe, raw *RawWriter) func
 			opts = append(opts, task.WithOutputStyle(o))
 		}
 		e := task.NewExecutor(opts...)
+		graph.VerifChoose = vsched.Choose
 		if !sc.Opts.SchedSetup {
 			vsched.Inline(true)
 		}
@@ -187,6 +191,10 @@ func (sc *Scenario) Body(dir string, x *Exec, probe *Probe, raw *RawWriter) func
 		}
 		if err != nil {
 			x.Err = err
+			return
+		}
+		if sc.Opts.DumpOnly {
+			x.Aux["dump"] = DumpExecutor(e)
 			return
 		}
 		if sc.Opts.ListJSON {
@@ -302,4 +310,42 @@ func calledFromPrompt() bool {
 			return false
 		}
 	}
+}
+
+// DumpExecutor renders what Setup computed in a canonical, order-preserving form: task names
+// in merge order, aliases, attributes, fast-compiled commands/deps/dir of every task, global
+// variables in order.
+func DumpExecutor(e *task.Executor) string {
+	var b strings.Builder
+	b.WriteString("globals:")
+	for k, v := range e.Taskfile.Vars.All() {
+		sh := ""
+		if v.Sh != nil {
+			sh = "sh:" + *v.Sh
+		}
+		fmt.Fprintf(&b, " %s=%v%s", k, v.Value, sh)
+	}
+	b.WriteString("\nenv:")
+	for k, v := range e.Taskfile.Env.All() {
+		fmt.Fprintf(&b, " %s=%v", k, v.Value)
+	}
+	b.WriteString("\n")
+	for name := range e.Taskfile.Tasks.Keys(nil) {
+		t, _ := e.Taskfile.Tasks.Get(name)
+		fmt.Fprintf(&b, "task %s aliases=%v internal=%v silent=%v", name, t.Aliases, t.Internal, t.Silent)
+		ct, err := e.FastCompiledTask(&task.Call{Task: name})
+		if err != nil {
+			fmt.Fprintf(&b, " compile-error=%v\n", err)
+			continue
+		}
+		fmt.Fprintf(&b, " dir=%s", strings.TrimPrefix(ct.Dir, e.Dir))
+		for _, d := range ct.Deps {
+			fmt.Fprintf(&b, " dep=%s", d.Task)
+		}
+		for _, c := range ct.Cmds {
+			fmt.Fprintf(&b, " cmd=[%s|%s]", c.Cmd, c.Task)
+		}
+		b.WriteString("\n")
+	}
+	return b.String()
 }
